@@ -114,6 +114,15 @@ func checkOutcome(c *harness.Ctx, w *World, call *Call, where string) {
 		return
 	}
 	e := call.Exchanges[len(call.Exchanges)-1]
+	for i, er := range call.batchErrs {
+		if ok, p := deepEq(call.batchErrSnaps[i], reflect.ValueOf(er), "error"); !ok {
+			c.Fail("C08", "error-object-modified", "error-object-modified:batch:"+pathSig(p), "%s: a per-key error object the resource returned in a batch result was modified by the server: %s (was %s, is %s)", where, p, render(call.batchErrSnaps[i]), render(reflect.ValueOf(er)))
+			return
+		}
+	}
+	if len(call.batchErrs) > 0 {
+		c.Probe("batch-error-objects-checked")
+	}
 	hdrSet := strings.EqualFold(e.RespHeader.Get("X-RestLi-Error-Response"), "true")
 	kind := call.Out.Kind
 	sigBase := kind + ":" + methodClass(call, w)
